@@ -66,6 +66,12 @@ pub fn architectures() -> Vec<Value> {
                            "layers": [{"kind": "conv", "filters": 1, "kernel": [3, 3], "stride": [1, 1], "padding": [1, 1], "act": "tanh"}]},
                           {"kind": "dense", "out": 2, "act": "linear", "bias": false}],
                "objective": {"kind": "mse"}, "optimizer": {"kind": "rmsprop", "lr": 0.001, "alpha": 0.9}}),
+        json!({"name": "mlp-mixed-bias-sgdm", "ints": false, "input": [4], "out": 3,
+               "layers": [{"kind": "dense", "out": 5, "act": "tanh", "bias": true},
+                          {"kind": "dense", "out": 4, "act": "tanh", "bias": false},
+                          {"kind": "dense", "out": 4, "act": "sigmoid", "bias": true},
+                          {"kind": "dense", "out": 3, "act": "linear", "bias": false}],
+               "objective": {"kind": "mse"}, "optimizer": {"kind": "sgdm", "lr": 0.05, "momentum": 0.8, "dampening": 0.2, "decay": 0.01}}),
         json!({"name": "mlp-adamw-ce", "ints": false, "input": [5], "out": 3, "onehot": true,
                "layers": [{"kind": "dense", "out": 6, "act": "leaky", "bias": true},
                           {"kind": "dense", "out": 3, "act": "softmax", "bias": true}],
@@ -624,6 +630,15 @@ pub fn thread_jobs() -> Vec<Value> {
                "connect": [[0, 2]], "loopback": [{"outof": 1, "into": 1, "iterations": 2, "inskips": true}],
                "accumulation": {"skip": "add", "loop": "mean"},
                "objective": {"kind": "mse"}, "optimizer": {"kind": "adam", "lr": 0.01}}),
+        json!({"name": "mlp-shared-source-skips-sgdm", "ints": false, "input": [5], "out": 2,
+               "layers": [{"kind": "dense", "out": 5, "act": "tanh", "bias": true},
+                          {"kind": "dense", "out": 5, "act": "tanh", "bias": true},
+                          {"kind": "dense", "out": 5, "act": "sigmoid", "bias": false},
+                          {"kind": "dense", "out": 5, "act": "tanh", "bias": true},
+                          {"kind": "dense", "out": 5, "act": "tanh", "bias": true},
+                          {"kind": "dense", "out": 2, "act": "linear", "bias": true}],
+               "connect": [[1, 2], [1, 3], [1, 4], [0, 1]], "accumulation": {"skip": "add", "loop": "mean"},
+               "objective": {"kind": "mse"}, "optimizer": {"kind": "sgdm", "lr": 0.02, "momentum": 0.7, "dampening": 0.1}}),
         json!({"name": "fbdense-5loops-adamw-ce", "ints": false, "input": [5], "out": 3, "onehot": true,
                "layers": [{"kind": "feedback", "loops": 5, "acc": "mean", "inskips": true, "outskips": true,
                            "layers": [{"kind": "dense", "out": 5, "act": "tanh", "bias": true, "dropout": 0.2}]},
